@@ -409,6 +409,53 @@ Proof.
   - apply good_wrap. apply problem_good_fact. exact Hc.
 Qed.
 
+(* ------------------------------------------------------------------ 4b. activities *)
+Definition activity_good (a : activity) : Prop :=
+  activity_kind_ok (v_kind a) = true /\ fgood good (v_actor a) /\ good (v_target_name a) /\
+  (forall w, good (v_target_string a w)) /\ (forall w, good (v_target_preview a w)).
+
+Lemma good_lit : forall l : list Z, Forall (fun z => (33 <= z < 127)%Z) l -> good (t l).
+Proof.
+  intros l H. apply good_plain.
+  - unfold t. intros Hin. apply in_map_iff in Hin as (z & Hz & Hin). rewrite Forall_forall in H. specialize (H z Hin).
+    unfold ESC in Hz. lia.
+  - unfold t. apply forallb_forall. intros c Hin. apply in_map_iff in Hin as (z & <- & Hin).
+    rewrite Forall_forall in H. specialize (H z Hin).
+    assert (E : exists k, (k < 94)%nat /\ z = (33 + Z.of_nat k)%Z) by (exists (Z.to_nat (z - 33)); lia).
+    destruct E as (k & Hk & ->). clear H Hin.
+    do 94 (destruct k as [|k]; [vm_compute; reflexivity|]). lia.
+Qed.
+
+Theorem activity_header_good_fact : forall col a w, colors_ok col -> activity_good a ->
+  exists h, activity_header col a w = Ok h /\ good h.
+Proof.
+  intros col a w Hc (Hk & Ha & _). unfold activity_header.
+  destruct (text_eqb (v_kind a) s_create) eqn:E0; [exists []; split; [reflexivity|apply good_nil]|].
+  unfold activity_kind_ok in Hk. rewrite E0 in Hk. cbn [orb] in Hk.
+  assert (Hwho : good (match v_actor a with FOk n => n | _ => problem col (v_actor_msg a) end)).
+  { destruct (v_actor a) as [n| |m]; [exact Ha|apply problem_good_fact, Hc|apply problem_good_fact, Hc]. }
+  assert (Htail : good [58%N; NL]).
+  { apply good_cons; [discriminate|reflexivity|apply good_nl]. }
+  destruct (text_eqb (v_kind a) s_announce) eqn:E1;
+    [|destruct (text_eqb (v_kind a) s_like) eqn:E2; [|destruct (text_eqb (v_kind a) s_dislike) eqn:E3; [|discriminate]]];
+    (eexists; split; [reflexivity|]; apply good_wrap; apply good_app; [exact Hwho|]; apply good_app; [apply good_sp|];
+     apply good_app; [|exact Htail]; apply good_lit; repeat constructor; lia).
+Qed.
+
+Theorem activity_string_good_fact : forall col a w, colors_ok col -> activity_good a ->
+  exists r, activity_string col a w = Ok r /\ good r.
+Proof.
+  intros col a w Hc Hg. destruct (activity_header_good_fact col a w Hc Hg) as (h & Hh & Hgh).
+  unfold activity_string. rewrite Hh. eexists. split; [reflexivity|]. apply good_app; [exact Hgh|]. apply Hg.
+Qed.
+
+Theorem activity_preview_good_fact : forall col a w, colors_ok col -> activity_good a ->
+  exists r, activity_preview col a w = Ok r /\ good r.
+Proof.
+  intros col a w Hc Hg. destruct (activity_header_good_fact col a w Hc Hg) as (h & Hh & Hgh).
+  unfold activity_preview. rewrite Hh. eexists. split; [reflexivity|]. apply good_app; [exact Hgh|]. apply Hg.
+Qed.
+
 (* ------------------------------------------------------------------ 5. the attachment lines *)
 Lemma join_nl_app_head : forall x y rest, join_nl ((x ++ y) :: rest) = x ++ join_nl (y :: rest).
 Proof.
@@ -628,3 +675,5 @@ Print Assumptions link_select_uri_fact.
 Print Assumptions link_select_none_fact.
 Print Assumptions post_good_example.
 Print Assumptions actor_good_example.
+Print Assumptions activity_string_good_fact.
+Print Assumptions activity_preview_good_fact.
